@@ -52,7 +52,7 @@ def case_partition(case):
                            "propagators": {k: str(v) for k, v in s.get("propagators", {}).items()},
                            "initial_values": dict(s.get("initial_values", {})), "parameters": s.get("parameters")} for s in res]
     try:
-        cl = truthcheck.classify(indict, marker=marker)
+        cl = truthcheck.classify(indict, marker=marker, time_symbol=indict.get("options", {}).get("input_time_symbol", "t"))
         out["truth"] = {k: cl[k] for k in ("vars", "lin", "deps", "exc1", "exc2", "eligible", "expected_analytic", "has_offset", "scc", "offset")}
     except Exception as e:
         out["truth_error"] = type(e).__name__ + ": " + str(e)[:200]
@@ -234,7 +234,7 @@ def case_full(case):
         except Exception as e:
             out["numeric_check_error"] = type(e).__name__ + ": " + str(e)[:200]
     try:
-        cl = truthcheck.classify(indict, marker=marker)
+        cl = truthcheck.classify(indict, marker=marker, time_symbol=indict.get("options", {}).get("input_time_symbol", "t"))
         out["truth"] = {k: cl[k] for k in ("vars", "lin", "deps", "exc1", "exc2", "eligible", "expected_analytic", "has_offset", "scc", "offset")}
     except Exception as e:
         out["truth_error"] = type(e).__name__ + ": " + str(e)[:200]
